@@ -172,6 +172,25 @@ class World:
                 for i, q in enumerate(new.patterns):
                     if q is not None and i < len(qids) and qids[i] > 0:
                         self.pat[qids[i]] = q
+                if P not in ids:
+                    self.mod[P] = new.output      # (a project loaded without its output: the Output object it carries)
+                self.proj[P] = new
+            elif act == "load_without_output":
+                # the project written with position 0 emptied (project.modules[0] = None) and read back
+                P = args[0]
+                old = self.proj[P]
+                ids = [self.mid(m) for m in old.modules]
+                qids = [self.qid(q) for q in old.patterns]
+                if old.modules:
+                    old.modules[0] = None
+                new = api.read_sunvox_file(io.BytesIO(old.read()))
+                for i, m in enumerate(new.modules):
+                    if m is not None and i < len(ids) and ids[i] > 0:
+                        self.mod[ids[i]] = m
+                for i, q in enumerate(new.patterns):
+                    if q is not None and i < len(qids) and qids[i] > 0:
+                        self.pat[qids[i]] = q
+                self.mod[P] = new.output          # the Output object the loaded project carries
                 self.proj[P] = new
             elif act == "set_note_mod":
                 q, m = args
@@ -274,13 +293,19 @@ def random_history(rnd, tid, nm, np_, length, extra_output=False):
             act, args = "iadd", [P, items]
         elif r < 0.80:
             act, args = "saveload", [P]
+            if r >= 0.775 and not extra_output and w.mid(w.proj[P].modules[0] if w.proj[P].modules else None) in (0, P):
+                act = "load_without_output"
         elif r < 0.83:
             act, args = "set_note_num", [rnd.choice([q for q in range(1, np_ + 1) if q % 2 == 1]), rnd.choice([32768, 65535, 255, 256])]
         elif r < 0.90:
             act, args = "set_note_mod", [rnd.choice([q for q in range(1, np_ + 1) if q % 2 == 1]), rnd.randrange(1, nm + 1)]
         else:
             act, args = "get_note_mod", [rnd.choice([q for q in range(1, np_ + 1) if q % 2 == 1])]
-        if act == "saveload" and extra_output and w.mod[nm] in w.proj[args[0]].modules:
+        if act == "attach" and args[1] <= 2 and any(not w.proj[P_].modules or w.mid(w.proj[P_].modules[0]) != P_ for P_ in (1, 2)):
+            # (an Output object offered to a project that was loaded without its output could land behind position 0, and a
+            #  file with the output elsewhere cannot be read back: outside C14, which has the output at position 0)
+            args = [args[0], 3]
+        if act in ("saveload", "load_without_output") and extra_output and w.mod[nm] in w.proj[args[0]].modules:
             # a project holding a second Output instance cannot be written and read back (no STYP for Output): not part of C14
             act, args = "attach_none", [args[0]]
         out, ret = w.do(act, args, rnd)
